@@ -275,6 +275,21 @@ def only_removals_of(stored, table_id):
   return bool(stored) and all(a[0] in ('RemoveRecord', 'BulkRemoveRecord') and a[1] == table_id for a in stored)
 
 
+def phantom_removals(S0, m, stored):
+  """The consequence of the open finding auto_remove_left_by_group_evaluation: every stored action removes, from a summary or
+  metadata table, records that the table did not have (a mark for automatic removal left behind for a record that only existed
+  during the evaluation, or never)."""
+  for a in stored:
+    if a[0] not in ('RemoveRecord', 'BulkRemoveRecord') or not isinstance(a[1], str) or a[1] not in S0:
+      return False
+    if not (a[1].startswith('_grist_') or (a[1] in m.tables and m.tables[a[1]]['summary'])):
+      return False
+    rows = a[2] if isinstance(a[2], list) else [a[2]]
+    if any(r in S0[a[1]][0] for r in rows):
+      return False
+  return bool(stored)
+
+
 class ReadOnlyMonitor(histories.Monitor):
   MUTATES = True
 
@@ -348,7 +363,7 @@ class ReadOnlyMonitor(histories.Monitor):
       return None
     S2 = h.snap()
     if r.stored or r.undo:
-      if not d and group_evaluation(self.gen.m, name, wire) and only_removals_of(r.stored, wire[0]):
+      if not d and name in ('get_formula_error', 'evaluate_formula') and phantom_removals(S0, self.gen.m, r.stored):
         h.violation('auto_remove_left_by_group_evaluation', 'Calculate after %s%s emitted %s' % (name, snapshot._short(wire, 200),
                     snapshot._short(r.stored[:3], 300)), dict(detail, stored=r.stored[:8]))
       elif not d and self.twin_also_emits(h, r):
@@ -486,6 +501,22 @@ def scenario_group_evaluation(acc):
                     {'stored': r.stored})
     elif err is not None or d or r.stored:
       acc.violation('calculate_emits:get_formula_error', 'witness history: %s %s %s' % (err and err.text[:200], d[:2], r and r.stored[:2]), {})
+      return
+    # Third trigger: a user formula that makes the summary table add a row while it is evaluated for a new key. The row is
+    # reverted, the mark its empty group left is not.
+    p.apply([['AddColumn', 'T', 'F', {'isFormula': True, 'type': 'Any', 'formula': 'T_summary_A.lookupOrAddDerived(A=$A).count'}]])
+    S0 = snapshot.take(p)
+    try:
+      p.call('evaluate_formula', 'T', 'F', 0)
+    except EngineError:
+      return
+    d = snapshot.diff(S0, snapshot.take(p))
+    r, err = p.try_apply([['Calculate']])
+    if err is None and not d and only_removals_of(r.stored, 'T_summary_A'):
+      acc.violation('auto_remove_left_by_group_evaluation', 'witness: Calculate after evaluate_formula(T, F, 0) with F = T_summary_A.lookupOrAddDerived(A=$A).count '
+                    'emitted %s' % r.stored[:2], {'stored': r.stored})
+    elif err is not None or d or r.stored:
+      acc.violation('calculate_emits:evaluate_formula', 'witness history: %s %s %s' % (err and err.text[:200], d[:2], r and r.stored[:2]), {})
 
 
 def scenario_lookup_helper(acc):
@@ -507,6 +538,22 @@ def scenario_lookup_helper(acc):
                     {'stored': r.stored})
     elif err is not None or d or r.stored:
       acc.violation('calculate_emits:get_formula_error', 'witness history: %s %s %s' % (err and err.text[:200], d[:2], r and r.stored[:2]), {})
+      return
+    # Third trigger: a user formula that makes the summary table add a row while it is evaluated for a new key. The row is
+    # reverted, the mark its empty group left is not.
+    p.apply([['AddColumn', 'T', 'F', {'isFormula': True, 'type': 'Any', 'formula': 'T_summary_A.lookupOrAddDerived(A=$A).count'}]])
+    S0 = snapshot.take(p)
+    try:
+      p.call('evaluate_formula', 'T', 'F', 0)
+    except EngineError:
+      return
+    d = snapshot.diff(S0, snapshot.take(p))
+    r, err = p.try_apply([['Calculate']])
+    if err is None and not d and only_removals_of(r.stored, 'T_summary_A'):
+      acc.violation('auto_remove_left_by_group_evaluation', 'witness: Calculate after evaluate_formula(T, F, 0) with F = T_summary_A.lookupOrAddDerived(A=$A).count '
+                    'emitted %s' % r.stored[:2], {'stored': r.stored})
+    elif err is not None or d or r.stored:
+      acc.violation('calculate_emits:evaluate_formula', 'witness history: %s %s %s' % (err and err.text[:200], d[:2], r and r.stored[:2]), {})
 
 
 def run_scenario(acc, p, name, calls):
